@@ -25,7 +25,9 @@ func c02Profile(tier string) *eng.Profile {
 		up(core.Call{F: "Put", B: "b", K: "a", V: "m"}, core.Call{F: "Put", B: "b", K: "d", V: "n"}),
 		up(core.Call{F: "Put", B: "b", K: "b", V: "m"}, core.Call{F: "Delete", B: "b", K: "c"}))
 	p := &eng.Profile{ID: "C02", Name: "sparse",
-		Cfgs: cfgs([]int{core.S}, []int{core.F, core.M}, []int64{100}),
+		// seg=100: two records per segment; seg=150: three, so that a sealed segment's key range can
+		// strictly contain a scanned range that still holds one of its keys
+		Cfgs: append(cfgs([]int{core.S}, []int{core.F, core.M}, []int64{100}), core.Cfg{Mode: core.S, Seg: 150}),
 		Ops:  func(core.Cfg) []core.Op { return ops },
 		Obs: func(core.Cfg) []core.Call {
 			return kvObs([]string{"b", "zz"}, []string{"a", "b", "c", "d", "zz"},
@@ -141,6 +143,17 @@ func c04Profile(tier string) *eng.Profile {
 				)
 			}
 		}
+		// one transaction writing the SAME key in two buckets (and a put in one with a delete in the
+		// other): consecutive pending writes that differ in the bucket only
+		for _, pr := range [][2]string{{"a", "ab"}, {"ab", "a"}, {"", "b"}, {"b", "a"}} {
+			ops = append(ops,
+				up(core.Call{F: "Put", B: pr[0], K: "b", V: "t" + pr[0]}, core.Call{F: "Put", B: pr[1], K: "b", V: "t" + pr[1]}),
+				up(core.Call{F: "Put", B: pr[0], K: "c", V: "u" + pr[0]}, core.Call{F: "Delete", B: pr[1], K: "c"}),
+			)
+		}
+		if cfg.Mode != core.S {
+			ops = append(ops, core.Op{Kind: "merge"})
+		}
 		ops = append(ops, core.Op{Kind: "reopen"})
 		return ops
 	}
@@ -170,11 +183,19 @@ func c04Profile(tier string) *eng.Profile {
 			last := c.Ops[len(c.Ops)-1]
 			// oracle 1 (no model): a write to bucket A leaves every read of another bucket, and of
 			// another structure of A, unchanged
-			if len(last.Calls) > 0 && c.ObsPrev != nil && c.Obs != nil {
-				wb, ws := last.Calls[0].B, structOf(last.Calls[0].F)
+			if (len(last.Calls) > 0 || last.Kind == "merge") && c.ObsPrev != nil && c.Obs != nil {
+				written := map[string]bool{}
+				wb, ws := "", ""
+				for _, cl := range last.Calls {
+					written[cl.B+"\x00"+structOf(cl.F)] = true
+					wb, ws = cl.B, structOf(cl.F)
+				}
 				for i, q := range c.Queries {
-					if q.B == wb && structOf(q.F) == ws {
+					if written[q.B+"\x00"+structOf(q.F)] {
 						continue
+					}
+					if last.Kind == "merge" && structOf(q.F) == "list" {
+						continue // Merge does not preserve lists: recorded under C15, not a namespace matter
 					}
 					if c.ObsPrev[i].String() != c.Obs[i].String() {
 						c.Add("C04", "interference", q.F, fmt.Sprintf("%s wrote bucket %q (%s) and changed %s: %s before, %s after", last, wb, ws, q, c.ObsPrev[i], c.Obs[i]))
